@@ -258,3 +258,202 @@ Proof. exact former_errors. Qed.
 Example C18_ex_syntax :
   wf ex_rs ex_syntax_filter /\ parse ex_rs (print ex_syntax_filter) = Some ex_syntax_filter.
 Proof. exact ex_syntax_ok. Qed.
+
+
+(* ======================================================================
+   export / import and freeze / thaw of log entries
+   ====================================================================== *)
+(* Models: Log/Export.v (Message.to_dict / from_dict, the Python-value -> LLSD dispatch of the
+   notation formatter, AbstractMessageLogEntry.to_dict / apply_dict, LLUDP / EQ entry
+   from_dict, export_log_entries / import_log_entries, LLUDPMessageLogEntry.freeze / message)
+   over the LLSD tree, formatter and parser of property C12 (Llsd/*.v).  Tied to the code by
+   the suites "message dict / notation", "entry export / import" and "freeze / thaw machine"
+   of harness/props/c18.py.  Library oracles, explicit premises below: repr(float) / float(),
+   the date strings (as in C12_not_roundtrip), repr / ast.literal_eval, gzip, pickle. *)
+From HV Require Import Llsd.Llsd Llsd.LlsdNotation Llsd.LlsdNotationParse Log.Export Log.ExportProofs.
+Local Open Scope N_scope.
+
+(* Message.from_dict(m.to_dict(extended=True)) is m up to bytes(extra); through the LLSD
+   tree (what format_notation can carry and parse_notation builds) it is the normal form
+   of m: coordinates, tuples and bytearrays have become lists, stringy / raw bytes plain
+   bytes, UUIDs uuid.UUID - block lists (the present-but-empty ones included), their
+   order, variable order, packet id, meta, flags, direction, extra and acks are kept.
+   The normal form exports to the same tree, is a fixed point, and stays well formed. *)
+Theorem C18_dict_roundtrip : forall m,
+  wf_msg m = true ->
+  from_dict (to_dict true m) = Some (plain_extra m)
+  /\ from_dict (norm (to_dict true m)) = Some (norm_msg m)
+  /\ msg_tree (norm_msg m) = msg_tree m
+  /\ norm_msg (norm_msg m) = norm_msg m
+  /\ wf_msg (norm_msg m) = true.
+Proof. exact dict_roundtrip. Qed.
+Print Assumptions C18_dict_roundtrip.
+
+(* the short dict form (templated messages on the event queue) keeps name and blocks *)
+Theorem C18_dict_roundtrip_short : forall m,
+  wf_msg m = true ->
+  from_dict (to_dict false m) = Some (mkMsg (m_name m) (m_blocks m) None [] false true DOut 0%Z BPlain [] STuple []).
+Proof. exact from_dict_to_dict_short. Qed.
+Print Assumptions C18_dict_roundtrip_short.
+
+(* nothing at all is lost on a message whose values are plain (None, bool, int, float, str,
+   bytes, uuid.UUID, lists and dicts of those) *)
+Theorem C18_dict_roundtrip_plain : forall m,
+  wf_msg m = true -> plain_msg m = true -> from_dict (norm (to_dict true m)) = Some m.
+Proof. exact dict_roundtrip_plain. Qed.
+Print Assumptions C18_dict_roundtrip_plain.
+
+(* a value comes back unchanged exactly when it is plain *)
+Theorem C18_value_fixed_iff_plain : forall v, norm v = v <-> plain v = true.
+Proof. exact norm_fixed_iff. Qed.
+Print Assumptions C18_value_fixed_iff_plain.
+
+(* FULL-STRENGTH CLAIM, FALSE OF THE CODE:  forall m, from_dict (norm (to_dict true m)) = Some m.
+   The class of a Vector3, of JankStringyBytes, of a hippolyzer UUID, tuple vs list and a
+   bytearray are lost (the harness shows the consequence on the real code: Message.__eq__ and
+   filters such as `Foo.Bar.V == (0.0, 0.0, 0.0)` or `Foo.Bar.J == 'a'` distinguish the
+   imported entry from the logged one). *)
+Theorem C18_dict_classes_lost_refuted :
+  wf_msg lossy_msg = true
+  /\ norm_msg lossy_msg =
+     mkMsg [70] [([66], [[([86], YSeq SList [YFloat 0; YFloat 0; YFloat 0]); ([74], YBytes BPlain [97; 0]);
+                          ([85], YUuid UStd [0;0;0;0;0;0;0;0;0;0;0;0;0;0;0;5]); ([84], YSeq SList [YInt 1]);
+                          ([65], YSeq SList [YInt 120; YInt 121])]])]
+           (Some 1%Z) [] false false DOut 0%Z BPlain [1] SList [YInt 2]
+  /\ norm_msg lossy_msg <> lossy_msg.
+Proof. exact classes_lost. Qed.
+Print Assumptions C18_dict_classes_lost_refuted.
+
+(* the notation leg: Message.from_dict(parse_notation(format_notation(m.to_dict(extended=True))))
+   under exactly C12_not_roundtrip's hypotheses on the exported tree *)
+Theorem C18_msg_notation_roundtrip : forall (rreal rdate : N -> list N) (preal pdate : list N -> option N),
+  (forall b rest, stopb rest = true -> scan_real (rreal b ++ rest) = Some (rreal b, rest)) ->
+  (forall b, forallb plain_byte (rdate b) = true) ->
+  forall m, wf_msg m = true -> wfn (msg_tree m) = true -> oracles_ok rreal rdate preal pdate (msg_tree m) = true ->
+  bind (of_notation preal pdate (notation rreal rdate (to_dict true m))) from_dict = Some (norm_msg m).
+Proof. exact msg_notation_roundtrip. Qed.
+Print Assumptions C18_msg_notation_roundtrip.
+
+(* import_log_entries(export_log_entries([e1..en])) = [e1'..en'] in order, ei' the normal form
+   of ei: the message / event normalised as above, region name, agent id, summary (now
+   cached) and meta kept (UUIDs through str() / UUID()).  LLUDP and EQ entries; hypotheses:
+   per entry C12's well-formedness of the exported tree, the three UUID-valued meta keys
+   present and holding None or a 16-byte UUID; gzip and repr / literal_eval inverse on the
+   one exported value. *)
+Theorem C18_export_import : forall (rreal rdate : N -> list N) (preal pdate : list N -> option N)
+    (summ : payload -> list N) (pyrepr : yv -> list N) (pyeval : list N -> option yv)
+    (gz : list N -> list N) (gunz : list N -> option (list N)),
+  (forall b rest, stopb rest = true -> scan_real (rreal b ++ rest) = Some (rreal b, rest)) ->
+  (forall b, forallb plain_byte (rdate b) = true) ->
+  forall es, forallb (entry_ok rreal rdate preal pdate) es = true ->
+  exists v es',
+    export_payload rreal rdate summ es = Some v /\ mapM (norm_entry summ) es = Some es' /\ length es' = length es /\
+    (gunz (gz (pyrepr v)) = Some (pyrepr v) -> pyeval (pyrepr v) = Some v ->
+     export_log_entries rreal rdate summ pyrepr gz es = Some (gz (pyrepr v))
+     /\ import_log_entries preal pdate pyeval gunz (gz (pyrepr v)) = Some es').
+Proof. exact export_import. Qed.
+Print Assumptions C18_export_import.
+
+(* for an entry whose meta is what __init__ builds (the eight keys, hippolyzer UUIDs), the
+   normal form keeps the meta exactly *)
+Theorem C18_export_import_std : forall (summ : payload -> list N) e,
+  std_meta (le_payload e) (le_meta e) = true ->
+  norm_entry summ e = Some (mkLE (Some (region_name e)) (le_agent_id e) (Some (summary summ e)) (le_meta e)
+                                 (norm_payload (le_payload e))).
+Proof. exact norm_entry_std. Qed.
+Print Assumptions C18_export_import_std.
+
+(* ... such an entry, once imported, is standard again, satisfies the hypotheses of
+   C18_export_import again and is a fixed point: exporting and importing an imported log
+   reproduces it exactly *)
+Theorem C18_export_import_stable : forall (rreal rdate : N -> list N) (preal pdate : list N -> option N)
+    (summ : payload -> list N) e e',
+  entry_ok rreal rdate preal pdate e = true -> std_meta (le_payload e) (le_meta e) = true ->
+  norm_entry summ e = Some e' ->
+  entry_ok rreal rdate preal pdate e' = true /\ std_meta (le_payload e') (le_meta e') = true
+  /\ norm_entry summ e' = Some e'.
+Proof. exact export_import_stable. Qed.
+Print Assumptions C18_export_import_stable.
+
+(* freeze then thaw gives the message as it was when frozen, for both variants of freeze();
+   later changes of the live object are not seen: the frozen entry no longer references it *)
+Theorem C18_freeze_thaw : forall (pk : option msg -> list N) (unpk : list N -> option (option msg)) rp h u r,
+  u_message u = Some r -> pickles pk unpk (Some (h r)) ->
+  exists u', u_freeze rp pk unpk h u = Some u' /\ u_message u' = None /\ forall h', u_msg unpk h' u' = Some (h r).
+Proof. exact freeze_thaw. Qed.
+Print Assumptions C18_freeze_thaw.
+
+(* before the freeze the entry aliases the live message *)
+Theorem C18_live_aliases : forall (unpk : list N -> option (option msg)) h r h',
+  u_msg unpk h' (u_init h r) = Some (h' r) /\ u_get_name h' (u_init h r) = m_name (h' r)
+  /\ u_get_seq h' (u_init h r) = m_packet_id (h' r).
+Proof. exact live_aliases. Qed.
+Print Assumptions C18_live_aliases.
+
+(* name / method / seq read at freeze time are those of the frozen message ever after *)
+Theorem C18_freeze_caches : forall (pk : option msg -> list N) (unpk : list N -> option (option msg)) rp h u r u',
+  u_message u = Some r -> u_freeze rp pk unpk h (u_touch h u) = Some u' ->
+  forall h', u_get_name h' u' = m_name (h r) /\ u_get_method h' u' = dir_name (m_direction (h r))
+             /\ u_get_seq h' u' = m_packet_id (h r).
+Proof. exact freeze_caches. Qed.
+Print Assumptions C18_freeze_caches.
+
+(* FULL-STRENGTH CLAIM, FALSE OF THE CODE AS IT STANDS (repickle = false): freeze is idempotent.
+   freeze() pickles self._message, which is None once frozen: after a second freeze() the
+   message property raises and so does every further freeze(). *)
+Theorem C18_freeze_twice_refuted : forall (pk : option msg -> list N) (unpk : list N -> option (option msg)) h u r,
+  u_message u = Some r -> pickles pk unpk (Some (h r)) -> pickles pk unpk None ->
+  exists u2, u_freeze_n false pk unpk 2 h u = Some u2 /\ u_msg unpk h u2 = None /\ u_freeze false pk unpk h u2 = None.
+Proof. exact freeze_twice_refuted. Qed.
+Print Assumptions C18_freeze_twice_refuted.
+
+(* with the resolved message pickled instead (repickle = true, the proposed repair) any number
+   of freezes leaves the entry thawing to the message of the first one *)
+Theorem C18_freeze_idempotent : forall (pk : option msg -> list N) (unpk : list N -> option (option msg)) h u r n,
+  u_message u = Some r -> pickles pk unpk (Some (h r)) ->
+  exists u', u_freeze_n true pk unpk (S n) h u = Some u' /\ forall h', u_msg unpk h' u' = Some (h r).
+Proof. exact freeze_idempotent. Qed.
+Print Assumptions C18_freeze_idempotent.
+
+(* exporting a frozen entry exports the snapshot *)
+Theorem C18_frozen_export : forall (pk : option msg -> list N) (unpk : list N -> option (option msg))
+    rp h u r u' rn aid sm meta,
+  u_message u = Some r -> pickles pk unpk (Some (h r)) -> u_freeze rp pk unpk h u = Some u' ->
+  forall h', resolve unpk h' u' rn aid sm meta = Some (mkLE rn aid sm meta (PUdp (h r))).
+Proof. exact resolve_frozen. Qed.
+Print Assumptions C18_frozen_export.
+
+(* ---- non-vacuity ---- *)
+
+(* a message with a Vector3, stringy bytes, a UUID, a str with quote and newline, a tuple
+   holding None, a present-but-empty block list, bytearray extra, acks; an LLUDP and an EQ
+   entry with standard meta: all hypotheses of C18_export_import hold *)
+Example C18_ex_export_hyps :
+  (forall b rest, stopb rest = true -> scan_real (ex_rreal b ++ rest) = Some (ex_rreal b, rest))
+  /\ (forall b, forallb plain_byte (ex_rdate b) = true)
+  /\ wf_msg ex_msg = true /\ plain_msg ex_msg = false
+  /\ forallb (entry_ok ex_rreal ex_rdate ex_preal ex_pdate) [ex_entry; ex_eq_entry] = true
+  /\ std_meta (le_payload ex_entry) (le_meta ex_entry) = true
+  /\ std_meta (le_payload ex_eq_entry) (le_meta ex_eq_entry) = true.
+Proof. split; [exact ex_real_scan|]. split; [exact ex_date_plain|]. exact ex_entries_ok. Qed.
+
+(* ... and its conclusion, with repr / literal_eval instantiated by a genuine serialisation *)
+Example C18_ex_export_import :
+  let pyrepr := notation ex_rreal ex_rdate in
+  let pyeval := of_notation ex_preal ex_pdate in
+  let gz := fun x : list N => x in
+  let gunz := fun x : list N => Some x in
+  export_payload ex_rreal ex_rdate ex_summ [ex_entry; ex_eq_entry] = Some ex_payload
+  /\ gunz (gz (pyrepr ex_payload)) = Some (pyrepr ex_payload) /\ pyeval (pyrepr ex_payload) = Some ex_payload
+  /\ bind (export_log_entries ex_rreal ex_rdate ex_summ pyrepr gz [ex_entry; ex_eq_entry])
+          (import_log_entries ex_preal ex_pdate pyeval gunz)
+     = Some [mkLE (Some [82]) (Some ex_uuid) (Some [115; 117; 109]) (ex_meta K_LLUDP K_IN) (PUdp (norm_msg ex_msg));
+             mkLE (Some []) None (Some [115]) (ex_meta K_EQ []) (le_payload ex_eq_entry)].
+Proof. exact ex_export_import. Qed.
+
+Example C18_ex_freeze :
+  pickles ex_pk ex_unpk (Some ex_msg) /\ pickles ex_pk ex_unpk None
+  /\ u_message (u_init (fun _ => ex_msg) 3) = Some 3%nat
+  /\ (exists u', u_freeze false ex_pk ex_unpk (fun _ => ex_msg) (u_init (fun _ => ex_msg) 3) = Some u'
+                 /\ u_msg ex_unpk (fun _ => lossy_msg) u' = Some ex_msg).
+Proof. exact ex_freeze. Qed.
